@@ -76,15 +76,39 @@ fn collision_case(r: &mut Rng) -> Case {
     c
 }
 
+fn has_and_or(e: &Exp) -> bool {
+    match e {
+        Exp::Number(_) | Exp::Variable(_) => false,
+        Exp::And(_) | Exp::Or(_) | Exp::BinOp(BinOp::And, _, _) | Exp::BinOp(BinOp::Or, _, _) => true,
+        Exp::Abs(x) | Exp::Not(x) | Exp::UnOp(_, x) => has_and_or(x),
+        Exp::Min(es) | Exp::Max(es) => es.iter().any(has_and_or),
+        Exp::Xor(x, y) | Exp::Implies(x, y) | Exp::Iff(x, y) | Exp::BinOp(_, x, y) => has_and_or(x) || has_and_or(y),
+    }
+}
+
+fn declared_finite(m: &Model, v: &str) -> bool {
+    match m.domain().get(v).map(|d| *d.get_type()) {
+        Some(VariableType::Real(lo, hi)) | Some(VariableType::NonNegativeReal(lo, hi)) => lo.is_finite() && hi.is_finite(),
+        Some(_) => true,
+        None => false,
+    }
+}
+
 fn check_missing_bounds(m: &Model, c: &mut Case) {
-    // `MissingFiniteBounds` must name variables whose derived range really is not finite
+    // `MissingFiniteBounds` must name variables whose range really is not finite in the box the raising stage reads
+    // (`Props.C08.compile_missing_bounds_blames_unbounded_any_stage`): the box after bound inference for the lowering;
+    // the DECLARED box for the up-front collapse check of rooc e35561f, which only lowers at and/or nodes.
     if let Err(LinearizationError::MissingFiniteBounds { variables, .. }) = Linearizer::linearize(m.clone()) {
         let rep = rooc::verif_hooks::linearizer_bounds(m.domain(), m.constraints());
-        for v in &variables {
-            if let Some((_, lo, hi)) = rep.variables.iter().find(|(n, _, _)| n == v) {
-                if lo.is_finite() && hi.is_finite() {
-                    c.impl_violation = Some(format!("MissingFiniteBounds names {} whose derived range [{}, {}] is finite", v, lo, hi));
-                }
+        let inferred_finite = |v: &String| rep.variables.iter().find(|(n, _, _)| n == v).map(|(_, lo, hi)| lo.is_finite() && hi.is_finite()).unwrap_or(false);
+        if variables.iter().any(|v| inferred_finite(v)) {
+            let may_be_collapse_stage = std::iter::once(&m.objective().rhs).chain(m.constraints().iter().flat_map(|k| [k.lhs(), k.rhs()])).any(has_and_or);
+            if may_be_collapse_stage && variables.iter().all(|v| !m.domain().contains_key(v) || !declared_finite(m, v)) {
+                c.tags.push("missing-bounds-at-collapse-check".into());
+            } else {
+                let v = variables.iter().find(|v| inferred_finite(v)).unwrap();
+                let (_, lo, hi) = rep.variables.iter().find(|(n, _, _)| n == v).unwrap();
+                c.impl_violation = Some(format!("MissingFiniteBounds names {} whose derived range [{}, {}] is finite", v, lo, hi));
             }
         }
         if variables.is_empty() { c.tags.push("missing-bounds-none-identified".into()); }
@@ -325,7 +349,12 @@ fn display_targeted(r: &mut Rng) -> Model {
     let free = VariableType::Real(f64::NEG_INFINITY, f64::INFINITY);
     let boxed = VariableType::Real(-2.0, 3.0);
     let names = ["x", "y", "z", "B", "a"];
-    let (lhs, tys): (Exp, Vec<VariableType>) = match r.below(7) {
+    let (lhs, tys): (Exp, Vec<VariableType>) = match r.below(11) {
+        // an empty numeric aggregation
+        10 => (bin(BinOp::Add, if r.chance(1, 2) { Exp::Min(vec![]) } else { Exp::Max(vec![]) }, v("x")), vec![boxed, boxed, boxed, boxed, VariableType::Boolean]),
+        // an and/or node that collapses to a non-logic operand whose lowering needs finite bounds: the up-front
+        // collapse check (rooc e35561f) raises MissingFiniteBounds on the DECLARED boxes
+        7 | 8 | 9 => (bin(BinOp::Add, if r.chance(1, 2) { Exp::And(vec![Exp::Abs(Box::new(v("x"))), k(1.0)]) } else { Exp::Or(vec![Exp::Abs(Box::new(bin(BinOp::Sub, v("x"), v("z")))), k(0.0)]) }, v("y")), vec![free, boxed, if r.chance(1, 2) { free } else { boxed }, boxed, VariableType::Boolean]),
         // a binary logic operator / a `not` written as an operator node: `simplify` rewrites them into the n-ary nodes,
         // so the UnimplementedExpression branches of Exp::linearize are not reachable from Linearizer::linearize
         5 => (bin(*r.pick(&[BinOp::And, BinOp::Or, BinOp::Xor, BinOp::Implies, BinOp::Iff]), v("a"), v("a")), vec![boxed, boxed, boxed, boxed, VariableType::Boolean]),
@@ -361,11 +390,11 @@ pub fn generate(seed: u64, n: usize, thorough: bool, corpus: Option<&str>) -> Ve
     }
     // the messages of the other error kinds: the hostile configuration produces all of them
     let hostile = ModelCfg { max_vars: 4, depth: 3, logic: true, piecewise: true, unbounded: true, fractional: false, strict_cmp: true, hostile: true };
-    for _ in 0..(n / 5).max(60) {
+    for _ in 0..(n / 5).max(100) {
         let (m, _) = gen_model::model(&mut r, &hostile);
         if let Some(d) = display_case(&m) { out.push(d); }
     }
-    for _ in 0..(n / 10).max(80) {
+    for _ in 0..(n / 10).max(200) {
         let m = display_targeted(&mut r);
         let mut c = crate::props::c01::one(&m, "targeted-error", "c08");
         check_missing_bounds(&m, &mut c);
